@@ -75,7 +75,7 @@ def simulate(choices, main, strategy=("rtb",), netcfg=None, trace_files=None, tr
         except Exception:
             pass
     if sim.leaked:
-        out = {"kind": "error", "detail": "leaked %d task threads" % sim.leaked}
+        out = {"kind": "error", "detail": "leaked %d task threads: %s" % (sim.leaked, "; ".join(sim.leak_info)[:1500])}
     return out, sim
 
 
